@@ -33,7 +33,7 @@ import subprocess
 import time
 from dataclasses import dataclass, field
 
-from rsextract import Contract, ExtractError, Source, apply_drop_rules, fragment, splice_contract
+from rsextract import Contract, ExtractError, Source, apply_drop_rules, fragment, splice_contract, split_or_guard_arms
 
 DEFINITE = (
     "postcondition not satisfied",
@@ -154,6 +154,8 @@ def _parse_block(lines: list[str]):
             d["safety"] = False
         elif word == "keepvis":
             d["keepvis"] = True
+        elif word == "splitarms":
+            d["splitarms"] = True
         elif word in ("wrapper", "wrapper_pre", "wrapper_post"):
             d[word] = (d.get(word, "") + "\n" + rest).strip() if word != "wrapper" else rest
         elif word == "constensures":
@@ -306,6 +308,9 @@ def generate(template_path: str, snapshot: str) -> Generated:
             fired.update(f)
             if d["fragment"]:
                 text = fragment(text, file, *d["fragment"])
+                if d.get("splitarms"):
+                    text, nsp = split_or_guard_arms(text, file)
+                    fired.add(f"R7 ({nsp} or-pattern+guard arms split)")
                 if d.get("wrapper"):
                     # the fragment becomes the body of a generated wrapper fn whose parameters are the fragment's free locals;
                     # only the wrapper's signature, local initialisation and result expression come from the template
